@@ -11,11 +11,15 @@ var (
 	genMethods     = []string{"GET", "POST", "PUT", "DELETE", "PATCH", "OPTIONS"}
 	genPaths       = []string{"/", "/index.html", "/a/b/c", "/search?q=go&x=1", "/p%20q", "/very/long/path/" + strings.Repeat("seg/", 30), "/a?", "/~user/x.y-z"}
 	genAuthorities = []string{"example.com", "localhost:8443", "a", "sub.domain.example.org:443", "10.0.0.1"}
-	genNames       = []string{"x-a", "x-b", "accept", "accept-encoding", "accept-language", "cache-control", "x-long-header-name-that-goes-on", "x-1", "x-a", "referer", "x-empty", "authorization", "if-none-match", "x-z9"}
-	genValues      = []string{"1", "", "v", "gzip, deflate", "text/html,application/xhtml+xml;q=0.9", "en-US", strings.Repeat("long-value-", 40), "a b c", "W/\"etag\"", "no-cache", "UPPER and lower", "https://example.com/x?y=z"}
-	respStatuses   = []int{200, 201, 202, 400, 404, 418, 500, 503}
-	respNames      = []string{"x-resp-a", "x-resp-b", "x-r1", "x-request-id", "x-resp-long-name-for-a-header", "x-cache"}
-	respValues     = []string{"ok", "", "some value", strings.Repeat("r", 300), "42", "a=b; c=d"}
+	genNames       = []string{"x-a", "x-b", "accept", "accept-encoding", "accept-language", "cache-control", "x-long-header-name-that-goes-on", "x-1", "x-a", "referer", "x-empty", "authorization", "if-none-match", "x-z9",
+		// static table index 15: the largest value of a 4-bit prefix (RFC 7541 5.1)
+		"accept-charset", strings.Repeat("n", 127)}
+	genValues = []string{"1", "", "v", "gzip, deflate", "text/html,application/xhtml+xml;q=0.9", "en-US", strings.Repeat("long-value-", 40), "a b c", "W/\"etag\"", "no-cache", "UPPER and lower", "https://example.com/x?y=z",
+		// string lengths around the largest value of a 7-bit prefix
+		strings.Repeat("q", 126), strings.Repeat("q", 127), strings.Repeat("q", 128), strings.Repeat("q", 255)}
+	respStatuses = []int{200, 201, 202, 400, 404, 418, 500, 503}
+	respNames    = []string{"x-resp-a", "x-resp-b", "x-r1", "x-request-id", "x-resp-long-name-for-a-header", "x-cache", "accept-charset", strings.Repeat("m", 127)}
+	respValues   = []string{"ok", "", "some value", strings.Repeat("r", 300), "42", "a=b; c=d", strings.Repeat("s", 127), strings.Repeat("s", 126), strings.Repeat("s", 128)}
 )
 
 func genReps(r *RNG, n int, variety bool) []Rep {
@@ -193,6 +197,12 @@ func GenRequestLane(r *RNG, rid int, o ReqOpts) Lane {
 		seen[n] = true
 		resp.Fields = append(resp.Fields, HF{n, Pick(r, respValues...)})
 	}
+	if r.Intn(12) == 0 {
+		// a header list larger than the largest frame: the response block has to be continued
+		for j := 0; j < 2+r.Intn(5); j++ {
+			resp.Fields = append(resp.Fields, HF{fmt.Sprintf("x-big-%d", j), strings.Repeat(string(rune('a'+j)), 3000+r.Intn(3000))})
+		}
+	}
 	resp.Fields = append(resp.Fields, HF{"x-rid", fmt.Sprint(rid)})
 	modes := o.RespModes
 	if len(modes) == 0 {
@@ -231,13 +241,20 @@ func genStrategy(r *RNG) Strategy {
 }
 
 func genMask(r *RNG) []string {
+	var m []string
 	switch r.Intn(4) {
 	case 0:
-		return nil // every optional point parks
+		// every optional point parks
 	case 1:
-		return []string{"atomic", "prelock"}
+		m = []string{"atomic", "prelock"}
 	case 2:
-		return []string{"atomic", "prelock", "net"}
+		m = []string{"atomic", "prelock", "net"}
+	default:
+		m = []string{"atomic", "prelock", "net", "yield"}
 	}
-	return []string{"atomic", "prelock", "net", "yield"}
+	if r.Intn(3) == 0 {
+		// park right after every unlock as well: the window in which a goroutine acts on what it read under the lock
+		m = append(m, "unlock-on")
+	}
+	return m
 }
